@@ -233,7 +233,15 @@ func (b *backend) GetPartitions(ctx context.Context, r *proto.ListPartitionReque
 
 	for idx, p := range partitions {
 		// append range start of partition only
-		resp.PartitionKeys = append(resp.PartitionKeys, p.Start)
+		start := p.Start
+		if idx != 0 {
+			// a border inside the versions of one key is moved to the index record of that key, as the scanner
+			// does for its own workers, otherwise the key is streamed by both of the partitions it is split over
+			if userKey, revision, decodeErr := b.coder.Decode(start); decodeErr == nil && revision != 0 {
+				start = b.coder.EncodeRevisionKey(userKey)
+			}
+		}
+		resp.PartitionKeys = append(resp.PartitionKeys, start)
 
 		// append last end of partition
 		if idx == len(partitions)-1 {
